@@ -174,7 +174,7 @@ func invBuf(w *Writer) bool {
 
 // invWriter is the representation invariant of Writer.
 func invWriter(w *Writer) bool {
-	return invBuf(w) && 0 <= w.n && w.n <= len(w.buf) && w.fseq >= 0 && w.op < 16
+	return invBuf(w) && 0 <= w.n && w.n <= len(w.buf) && w.op < 16
 }
 
 // lemmaReserve: a payload that fits the buffer always has a header that fits the reservation.
@@ -297,9 +297,11 @@ func specExtLen(n int) int {
 //@   props C06 C13
 //@   call ws.WriteHeader inline
 //@   call bytesWriter.Write inline
+//@   call ws.HeaderSize inline
+//@   call Writer.opCode inline
 //@   cases side: w.state&ws.StateClientSide != 0 | !(w.state&ws.StateClientSide != 0)
 //@   cases len: int64(w.n) < 126 && int64(w.n) <= 125 && int64(w.n) <= 65535 | !(int64(w.n) < 126) && !(int64(w.n) <= 125) && int64(w.n) <= 65535 | !(int64(w.n) < 126) && !(int64(w.n) <= 125) && !(int64(w.n) <= 65535)
-//@   requires [inv]  invWriter(w) && w.dest != nil && outOK(w.dest) && w.fseq <= 1<<40
+//@   requires [inv]  invWriter(w) && w.dest != nil
 //@   requires [rsv]  len(w.extensions) == 0
 //@   ensures  [calls] outCalls(w.dest) == old(outCalls(w.dest))+1
 //@   ensures  [len]  err == nil ==> outLen(w.dest) == old(outLen(w.dest))+specHdrLen(w.n, w.state&ws.StateClientSide != 0)+w.n
@@ -307,13 +309,13 @@ func specExtLen(n int) int {
 //@   ensures  [b1]   err == nil ==> outByte(w.dest, old(outLen(w.dest))+1) == specB1(w.n, w.state&ws.StateClientSide != 0)
 //@   ensures  [ext]  err == nil ==> forall(0, specExtLen(w.n), func(k int) bool { return outByte(w.dest, old(outLen(w.dest))+2+k) == specExtByte(w.n, k) })
 //@   ensures  [payload] err == nil ==> forall(0, w.n, func(k int) bool { return outByte(w.dest, old(outLen(w.dest))+specHdrLen(w.n, w.state&ws.StateClientSide != 0)+k) == old(w.buf[k])^iteByte(w.state&ws.StateClientSide != 0, outByte(w.dest, old(outLen(w.dest))+specHdrLen(w.n, true)-4+k%4), 0) })
-//@   ensures  [keep] forall(0, old(outLen(w.dest)), func(k int) bool { return outByte(w.dest, k) == old(outByte(w.dest, k)) })
+//@   ensures  [keep] forall(0, old(outLen(w.dest)), func(k int) bool { return outByte(w.dest, k) == old(outByte(w.dest, k)) }) && outLen(w.dest) >= old(outLen(w.dest)) && outCalls(w.dest) >= old(outCalls(w.dest))
 //@   assigns bytes(w.raw), stream(w.dest)
 //@   loop 1 invariant [hdr] header.Fin == fin && header.Length == int64(w.n) && !header.Masked && header.Rsv < 8 && err == nil && header.OpCode == w.opCode() && (len(w.extensions) == 0 ==> header.Rsv == 0)
 
 // writerReady: what every public Writer method needs from its caller / leaves behind.
 func writerReady(w *Writer) bool {
-	return invWriter(w) && w.dest != nil && outOK(w.dest) && w.fseq <= 1<<40 && len(w.extensions) == 0
+	return invWriter(w) && w.dest != nil && len(w.extensions) == 0
 }
 
 func clientSide(s ws.State) bool { return s&ws.StateClientSide != 0 }
@@ -327,7 +329,7 @@ func clientSide(s ws.State) bool { return s&ws.StateClientSide != 0 }
 //@   ensures  [b0]    old(w.n) > 0 && old(w.err) == nil && result == nil ==> outByte(w.dest, old(outLen(w.dest))) == byte(iteInt(old(w.fseq) > 0, 0, int(w.op)))
 //@   ensures  [b1]    old(w.n) > 0 && old(w.err) == nil && result == nil ==> outByte(w.dest, old(outLen(w.dest))+1) == specB1(old(w.n), clientSide(w.state))
 //@   ensures  [payload] old(w.n) > 0 && old(w.err) == nil && result == nil ==> forall(0, old(w.n), func(k int) bool { return outByte(w.dest, old(outLen(w.dest))+specHdrLen(old(w.n), clientSide(w.state))+k) == old(w.buf[k])^iteByte(clientSide(w.state), outByte(w.dest, old(outLen(w.dest))+specHdrLen(old(w.n), true)-4+k%4), 0) })
-//@   ensures  [keep]  forall(0, old(outLen(w.dest)), func(k int) bool { return outByte(w.dest, k) == old(outByte(w.dest, k)) })
+//@   ensures  [keep]  forall(0, old(outLen(w.dest)), func(k int) bool { return outByte(w.dest, k) == old(outByte(w.dest, k)) }) && outLen(w.dest) >= old(outLen(w.dest)) && outCalls(w.dest) >= old(outCalls(w.dest))
 //@   ensures  [same]  w.dirty == old(w.dirty) && w.dest == old(w.dest) && w.op == old(w.op) && w.state == old(w.state) && w.noFlush == old(w.noFlush) && sameSlice(w.raw, old(w.raw)) && sameSlice(w.buf, old(w.buf)) && len(w.extensions) == 0
 //@   ensures  [inv]   invWriter(w)
 //@   assigns w.err, w.n, w.fseq, bytes(w.raw), stream(w.dest)
@@ -341,7 +343,7 @@ func clientSide(s ws.State) bool { return s&ws.StateClientSide != 0 }
 //@   ensures  [b0]    (old(w.dirty) || old(w.n) > 0) && old(w.err) == nil && result == nil ==> outByte(w.dest, old(outLen(w.dest))) == 0x80|byte(iteInt(old(w.fseq) > 0, 0, int(w.op)))
 //@   ensures  [b1]    (old(w.dirty) || old(w.n) > 0) && old(w.err) == nil && result == nil ==> outByte(w.dest, old(outLen(w.dest))+1) == specB1(old(w.n), clientSide(w.state))
 //@   ensures  [payload] (old(w.dirty) || old(w.n) > 0) && old(w.err) == nil && result == nil ==> forall(0, old(w.n), func(k int) bool { return outByte(w.dest, old(outLen(w.dest))+specHdrLen(old(w.n), clientSide(w.state))+k) == old(w.buf[k])^iteByte(clientSide(w.state), outByte(w.dest, old(outLen(w.dest))+specHdrLen(old(w.n), true)-4+k%4), 0) })
-//@   ensures  [keep]  forall(0, old(outLen(w.dest)), func(k int) bool { return outByte(w.dest, k) == old(outByte(w.dest, k)) })
+//@   ensures  [keep]  forall(0, old(outLen(w.dest)), func(k int) bool { return outByte(w.dest, k) == old(outByte(w.dest, k)) }) && outLen(w.dest) >= old(outLen(w.dest)) && outCalls(w.dest) >= old(outCalls(w.dest))
 //@   ensures  [same]  w.dest == old(w.dest) && w.op == old(w.op) && w.state == old(w.state) && w.noFlush == old(w.noFlush) && sameSlice(w.raw, old(w.raw)) && sameSlice(w.buf, old(w.buf)) && len(w.extensions) == 0
 //@   ensures  [inv]   invWriter(w)
 //@   assigns w.err, w.n, w.fseq, w.dirty, bytes(w.raw), stream(w.dest)
@@ -373,8 +375,45 @@ func clientSide(s ws.State) bool { return s&ws.StateClientSide != 0 }
 //@   ensures  [b0]    old(w.err) == nil && w.n == 0 && err == nil ==> outByte(w.dest, old(outLen(w.dest))) == byte(iteInt(old(w.fseq) > 0, 0, int(w.op)))
 //@   ensures  [b1]    old(w.err) == nil && w.n == 0 && err == nil ==> outByte(w.dest, old(outLen(w.dest))+1) == specB1(len(p), clientSide(w.state))
 //@   ensures  [payload] old(w.err) == nil && w.n == 0 && err == nil ==> forall(0, len(p), func(k int) bool { return outByte(w.dest, old(outLen(w.dest))+specHdrLen(len(p), clientSide(w.state))+k) == p[k]^iteByte(clientSide(w.state), outByte(w.dest, old(outLen(w.dest))+specHdrLen(len(p), true)-4+k%4), 0) })
-//@   ensures  [keep]  forall(0, old(outLen(w.dest)), func(k int) bool { return outByte(w.dest, k) == old(outByte(w.dest, k)) })
+//@   ensures  [keep]  forall(0, old(outLen(w.dest)), func(k int) bool { return outByte(w.dest, k) == old(outByte(w.dest, k)) }) && outLen(w.dest) >= old(outLen(w.dest)) && outCalls(w.dest) >= old(outCalls(w.dest))
 //@   ensures  [same]  w.n == old(w.n) && w.dest == old(w.dest) && w.op == old(w.op) && w.state == old(w.state) && w.noFlush == old(w.noFlush) && sameSlice(w.raw, old(w.raw)) && sameSlice(w.buf, old(w.buf)) && len(w.extensions) == 0
 //@   ensures  [inv]   invWriter(w)
 //@   assigns w.err, w.dirty, w.fseq, stream(w.dest)
 //@   loop 1 invariant [hdr] !frame.Header.Fin && frame.Header.Length == int64(len(p)) && !frame.Header.Masked && frame.Header.Rsv == 0 && err == nil && frame.Header.OpCode == w.opCode() && isNilSlice(frame.Payload)
+
+//@ func Writer.Grow
+//@   props C06
+//@   requires [inv]  invWriter(w) && 0 <= n && n <= 1<<41 && len(w.raw) <= 1<<43
+//@   ensures  [inv]  invWriter(w)
+//@   ensures  [room] len(w.buf)-w.n >= n
+//@   ensures  [data] forall(0, w.n, func(k int) bool { return w.buf[k] == old(w.buf[k]) })
+//@   ensures  [same] w.n == old(w.n) && w.dest == old(w.dest) && w.op == old(w.op) && w.state == old(w.state) && w.noFlush == old(w.noFlush) && w.err == old(w.err) && w.fseq == old(w.fseq) && w.dirty == old(w.dirty) && len(w.extensions) == old(len(w.extensions))
+//@   ensures  [keepraw] len(w.raw) == old(len(w.raw)) ==> sameSlice(w.raw, old(w.raw)) && sameSlice(w.buf, old(w.buf))
+//@   ensures  [fresh] len(w.raw) != old(len(w.raw)) ==> fresh(w.raw)
+//@   assigns w.raw, w.buf
+//@   loop 1 invariant [b] size >= len(w.raw) && size <= 1<<44 && nextOffset == specReserve(w.state, size) && cap == size-nextOffset-buffered && buffered == w.n && prevOffset == len(w.raw)-len(w.buf)
+
+//@ func Writer.Write
+//@   props C06 C16 C17
+//@   requires [ready] writerReady(w) && len(p) <= 1<<40 && len(w.raw) <= 1<<40 && notPartOf(p, w) && !sameBase(p, w.raw)
+//@   call Writer.Available inline
+//@   call Writer.Buffered inline
+//@   cases fit: w.err == nil && len(p) <= len(w.buf)-w.n | !(w.err == nil) | w.err == nil && !(len(p) <= len(w.buf)-w.n)
+//@   ensures  [dead]  old(w.err) != nil ==> n == 0 && err == old(w.err) && outCalls(w.dest) == old(outCalls(w.dest))
+//@   ensures  [ok]    err == nil ==> n == len(p)
+//@   ensures  [n]     0 <= n && n <= len(p) && err == w.err
+//@   ensures  [fit]   old(w.err) == nil && len(p) <= old(len(w.buf)-w.n) ==> n == len(p) && w.n == old(w.n)+len(p) && outCalls(w.dest) == old(outCalls(w.dest)) && w.fseq == old(w.fseq) && sameSlice(w.buf, old(w.buf))
+//@   ensures  [fitdata] old(w.err) == nil && len(p) <= old(len(w.buf)-w.n) ==> forall(0, len(p), func(k int) bool { return w.buf[old(w.n)+k] == p[k] }) && forall(0, old(w.n), func(k int) bool { return w.buf[k] == old(w.buf[k]) })
+//@   ensures  [quiet] old(w.noFlush) ==> outCalls(w.dest) == old(outCalls(w.dest))
+//@   ensures  [dirty] w.dirty
+//@   ensures  [inv]   invWriter(w) && w.dest == old(w.dest) && w.op == old(w.op) && w.state == old(w.state) && w.noFlush == old(w.noFlush) && len(w.extensions) == 0
+//@   ensures  [keep]  forall(0, old(outLen(w.dest)), func(k int) bool { return outByte(w.dest, k) == old(outByte(w.dest, k)) }) && outLen(w.dest) >= old(outLen(w.dest)) && outCalls(w.dest) >= old(outCalls(w.dest))
+//@   assigns *w, bytes(w.raw), stream(w.dest)
+//@   loop 1 assigns *w, bytes(w.raw), stream(w.dest)
+//@   loop 1 invariant [b] invWriter(w) && w.dest == old(w.dest) && w.dest != nil && w.op == old(w.op) && w.state == old(w.state) && w.noFlush == old(w.noFlush) && len(w.extensions) == 0 && w.dirty
+//@   loop 1 invariant [p] 0 <= n && n <= len(old(p)) && sameBase(p, old(p)) && offOf(p) == offOf(old(p))+n && len(p) == len(old(p))-n && cap(p) == cap(old(p))-n
+//@   loop 1 invariant [raw] sameSlice(w.raw, old(w.raw)) || len(p) <= len(w.buf)-w.n
+//@   loop 1 invariant [quiet] old(w.noFlush) ==> outCalls(w.dest) == old(outCalls(w.dest))
+//@   loop 1 invariant [first] (old(w.err) != nil || len(old(p)) <= old(len(w.buf)-w.n)) ==> n == 0 && w.fseq == old(w.fseq) && w.n == old(w.n) && sameSlice(w.buf, old(w.buf)) && sameSlice(w.raw, old(w.raw)) && w.err == old(w.err) && outCalls(w.dest) == old(outCalls(w.dest)) && forall(0, w.n, func(k int) bool { return w.buf[k] == old(w.buf[k]) })
+//@   loop 1 invariant [sep] notPartOf(p, w) && !sameBase(p, w.raw) && (sameSlice(w.raw, old(w.raw)) || fresh(w.raw))
+//@   loop 1 invariant [keep] forall(0, old(outLen(w.dest)), func(k int) bool { return outByte(w.dest, k) == old(outByte(w.dest, k)) }) && outLen(w.dest) >= old(outLen(w.dest)) && outCalls(w.dest) >= old(outCalls(w.dest))
